@@ -382,27 +382,43 @@ def judge_twins(case):
         raise HarnessError("bad wrap")
     _n[0] += 1
     cname = f"Twin{_n[0]}"
+    styles = case.get("styles") or ["plain", "plain"]
+    if len(styles) != 2 or any(x not in ("plain", "future", "whole") for x in styles):
+        raise HarnessError("bad styles")
     srcs = []
-    for fld, typ in (("value", "int"), ("name", "str")):
-        srcs.append(f"import utype\nfrom typing import *\nclass {cname}(utype.Schema):\n    {fld}: {typ}\n"
-                    f"    child: {ann(wrap, repr(cname))} = {DEFAULT[wrap]}\n")
-    mods = [load(srcs[0], "twa"), load(srcs[1], "twb")]
+    for (fld, typ), style in zip((("value", "int"), ("name", "str")), styles):
+        # plain: List['Twin']   future: the module has `from __future__ import annotations`   whole: "List['Twin']" (the whole annotation a string)
+        a = ann(wrap, repr(cname))
+        if style == "whole":
+            a = repr(a)
+        srcs.append(("from __future__ import annotations\n" if style == "future" else "") +
+                    f"import utype\nfrom typing import *\nclass {cname}(utype.Schema):\n    {fld}: {typ}\n    child: {a} = {DEFAULT[wrap]}\n")
+    mods = [None, None]
     try:
         def child(v):
             return {"plain": v, "opt": v, "list": [v], "dict": {"k": v}, "union": v, "tuple": (v, 1), "list_opt": [v, None], "dict_list": {"k": [v]}}[wrap]
         inputs = [{"value": 1, "child": child({"value": 2})}, {"name": "a", "child": child({"name": "b"})}]
         order = [0, 1] if not first else [1, 0]
         fails = []
-        for i in order:
+        if not case.get("early_use"):
+            for i in (0, 1):
+                mods[i] = load(srcs[i], "tw" + "ab"[i])
+        for i in order + order[:1]:
+            if mods[i] is None:
+                mods[i] = load(srcs[i], "tw" + "ab"[i])      # early_use: the other module was declared AND used before this one exists
             cls = getattr(mods[i], cname)
             out = oracle.outcome(cls.__from__, inputs[i])
+            want_child = {"plain": 1, "opt": 1}.get(wrap)
             if out[0] != "ok":
                 fails.append((f"same-class-name-in-two-modules/{'second' if i != order[0] else 'first'}-module-fails",
-                              {"wrap": wrap, "error": str(out[1])[:200], "module": i}))
-        return {"status": "ok", "fails": fails, "unresolved": True}
+                              {"wrap": wrap, "error": str(out[1])[:200], "module": i, "styles": styles}))
+            elif want_child and type(out[1].child) is not cls:
+                fails.append(("same-class-name-in-two-modules/child-parsed-as-the-other-modules-class", {"wrap": wrap, "module": i, "styles": styles}))
+        return {"status": "ok", "fails": fails[:2], "unresolved": True}
     finally:
         for m in mods:
-            unload(m)
+            if m is not None:
+                unload(m)
 
 
 def run_case(case):
@@ -502,7 +518,8 @@ def cases(draw):
     return {"program": p, "uses": uses}
 
 
-TWINS = st.fixed_dictionaries({"part": st.just("twins"), "wrap": st.sampled_from(WRAPS), "first": st.integers(0, 1)})
+TWINS = st.fixed_dictionaries({"part": st.just("twins"), "wrap": st.sampled_from(WRAPS), "first": st.integers(0, 1),
+                               "styles": st.lists(st.sampled_from(["plain", "plain", "future", "whole"]), min_size=2, max_size=2), "early_use": st.booleans()})
 
 
 def campaign(ctx):
@@ -521,3 +538,16 @@ def campaign(ctx):
                 ctx.sample("program", case)
         ctx.fail_all(r["fails"], case)
     ctx.run_given(st.one_of(cases(), cases(), cases(), cases(), cases(), cases(), cases(), cases(), cases(), TWINS), body, max_examples=ctx.n(400, 6000))
+    # same class name in two modules: every wrapper x annotation style of each module x declaration/use order, enumerated completely
+    idx = 0
+    for wrap in WRAPS:
+        for s0 in ("plain", "future", "whole"):
+            for s1 in ("plain", "future", "whole"):
+                for first in (0, 1):
+                    for early in (False, True):
+                        idx += 1
+                        if idx % ctx.nshards != ctx.shard:
+                            continue
+                        ctx.ev()
+                        body({"part": "twins", "wrap": wrap, "first": first, "styles": [s0, s1], "early_use": early})
+    ctx.extra["twins_grid_exhaustive"] = True
